@@ -771,30 +771,42 @@ def check_optional_tags_equivalence(case):
     from html5lib.serializer import HTMLSerializer
     from vf import h5, obs
     from vf.core import Verdict, short, sig64
-    doc, walker = case["doc"], case.get("walker", "etree")
-    want = obs.clarkify(flat(doc))
-    from vf.props.c07 import noscript_text_trigger
-    if noscript_text_trigger(doc):
-        # the serializer (not the filter) writes such text raw, so neither stream can be re-read faithfully: C07-noscript-raw-text
-        return Verdict("excluded", finding="noscript text written raw by the serializer (recorded under C07)")
-    tree, p = h5.parse(writer(doc), builder=walker, full_tree=True)
-    if obs.clarkify(obs.flat(tree)) != want:
-        return Verdict("excluded", finding="generated tree not parsed back from the explicit writer (C01-class deviation)")
+    doc, walker = case.get("doc"), case.get("walker", "etree")
+    if doc is None:
+        # a conforming document given as markup with every tag written out (hand-written families, one per optional-tag rule):
+        # what counts is that html5lib itself reads it without a parse error and writes it back, unfiltered, to the same tree
+        markup = case["markup"]
+        tree, p = h5.parse(markup, builder=walker, full_tree=True)
+        if p.errors:
+            return Verdict("excluded", finding="family markup is not error-free on this tree (not a conforming document to this parser)")
+        want = obs.clarkify(obs.flat(tree))
+        _writer = lambda d: markup
+    else:
+        _writer = writer
+        want = obs.clarkify(flat(doc))
+        from vf.props.c07 import noscript_text_trigger
+        if noscript_text_trigger(doc):
+            # the serializer (not the filter) writes such text raw, so neither stream can be re-read faithfully: C07-noscript-raw-text
+            return Verdict("excluded", finding="noscript text written raw by the serializer (recorded under C07)")
+        tree, p = h5.parse(writer(doc), builder=walker, full_tree=True)
+        if obs.clarkify(obs.flat(tree)) != want:
+            return Verdict("excluded", finding="generated tree not parsed back from the explicit writer (C01-class deviation)")
+    writer_ = _writer
     variants = [None]
-    if case.get("doctype_variant") and writer(doc).startswith("<!DOCTYPE html>"):
+    if case.get("doctype_variant") and writer_(doc).startswith("<!DOCTYPE html>"):
         # the same document under every other DOCTYPE a conforming document may carry (the 'obsolete permitted' strings): no-quirks or
         # limited-quirks mode, which must not matter to how the output parses
         variants += PERMITTED_DOCTYPES if case["doctype_variant"] % 2 else [PERMITTED_DOCTYPES[case["doctype_variant"] % len(PERMITTED_DOCTYPES)]]
     enc = case.get("encoding")      # with a narrow output encoding text arrives as character references in the re-parse
-    if enc and unencodable_nontext(doc, enc):
+    if enc and (doc is None or unencodable_nontext(doc, enc)):
         enc = None
     res = None
     for dt in variants:
         if dt is not None:
-            tree_v, p = h5.parse(dt + writer(doc)[len("<!DOCTYPE html>"):], builder=walker, full_tree=True)
+            tree_v, p = h5.parse(dt + writer_(doc)[len("<!DOCTYPE html>"):], builder=walker, full_tree=True)
             strip = lambda F: [r for r in F if r[1] != "doctype"]
             if strip(obs.clarkify(obs.flat(tree_v))) != strip(want):
-                return Verdict("fail", "conforming document parses to another tree under the permitted DOCTYPE %s; markup %s" % (dt, short(writer(doc), 300)), "doc-doctype-variant", nontrivial=True)
+                return Verdict("fail", "conforming document parses to another tree under the permitted DOCTYPE %s; markup %s" % (dt, short(writer_(doc), 300)), "doc-doctype-variant", nontrivial=True)
             tree = tree_v
         res_v = {}
         for omit in (False, True):
@@ -810,8 +822,7 @@ def check_optional_tags_equivalence(case):
         if res_v[True][1] != res_v[False][1]:
             res = res_v
             break
-    feats, n_el = features(doc)
-    nontrivial = "omittable-tag" in feats and res[True][0] != res[False][0]
+    nontrivial = (doc is None or "omittable-tag" in features(doc)[0]) and res[True][0] != res[False][0]
     sig = sig64("doc", repr(want))
     if res[True][1] == res[False][1]:
         return Verdict("pass", nontrivial=nontrivial, sig=sig, classes=["conforming-doc"])
@@ -839,6 +850,46 @@ def unencodable_nontext(doc, enc):
         except UnicodeEncodeError:
             return True
     return False
+
+
+# One or more conforming bodies per optional-tag rule of the standard, every tag written out (the filter decides what to drop).
+FAMILY_BODIES = [
+    "<p>a</p><p>b</p>", "<p>a</p><div>d</div>", "<p>a</p><table><tr><td>c</td></tr></table>", "<p>a</p><ul><li>i</li></ul>", "<p>a</p><hr><p>b</p><pre>x</pre>", "<div><p>a</p></div>x",
+    "<p>a</p><h2>h</h2><p>b</p><form><p>c</p></form>x", "<p>a</p><address>x</address><p>b</p><blockquote><p>q</p></blockquote>y", "<section><p>a</p></section><p>b</p><details><summary>s</summary><p>d</p></details>t",
+    "<ul><li>a</li><li>b</li></ul>", "<ol><li>a<ul><li>b</li></ul></li><li>c</li></ol>", "<dl><dt>t</dt><dd>d</dd><dt>t2</dt><dd>d2</dd></dl>", "<dl><div><dt>t</dt><dd>d</dd></div></dl>",
+    "<ruby>r<rt>t</rt><rp>p</rp></ruby>", "<ruby>a<rp>(</rp><rt>b</rt><rp>)</rp></ruby>x",
+    "<select><option>1</option><option>2</option></select>", "<select><optgroup label=a><option>1</option></optgroup><optgroup label=b><option>2</option></optgroup></select>",
+    "<select><optgroup label=a><option>1</option><option>2</option></optgroup><option>3</option></select>", "<select><option>1</option><optgroup label=b></optgroup></select>",
+    "<datalist><option>1</option><option>2</option></datalist>", "<select><optgroup label=a></optgroup><optgroup label=b><option>x</option></optgroup></select>y",
+    "<table><caption>c</caption><colgroup><col></colgroup><thead><tr><th>h</th></tr></thead><tbody><tr><td>d</td></tr></tbody><tfoot><tr><td>f</td></tr></tfoot></table>",
+    "<table><colgroup><col></colgroup></table>x", "<table><caption>c</caption><colgroup><col><col></colgroup></table>", "<table><colgroup></colgroup><tbody><tr><td>a</td><td>b</td></tr><tr><td>c</td></tr></tbody></table>",
+    "<table><tbody><tr><td>a</td></tr></tbody><tbody><tr><td>b</td></tr></tbody></table>", "<table><thead><tr><th>a</th><th>b</th></tr></thead><tbody></tbody></table>",
+    "<table><tr><td><table><tr><th>h</th></tr></table></td><td>x</td></tr></table>", "<table><tbody><tr><td><p>a</p></td><th><ul><li>i</li></ul></th></tr></tbody></table>z",
+    "<form><p>a</p></form>text", "<form><p>a</p></form><!--c-->", "<form><p>a</p></form><input>", "<fieldset><legend>l</legend><p>a</p></fieldset>x", "<a href=u><p>a</p></a>x", "<ins><p>a</p></ins><del><p>b</p></del>x",
+    "<video><p>a</p></video>x", "<audio><p>a</p></audio>x", "<map name=m><p>a</p></map>x", "<object><p>a</p></object>x", "<canvas><p>fallback</p></canvas>after", "<slot><p>x</p></slot>after",
+    "<noscript><p>a</p></noscript>x", "<button>b</button><p>a</p>", "<main><p>a</p></main>", "<figure><p>a</p><figcaption><p>c</p></figcaption></figure>", "<li-x><p>a</p></li-x>x",
+    "<dialog open><p>a</p></dialog>x", "<menu><li>a</li></menu>", "<nav><ul><li><a href=u>l</a></li></ul></nav>", "<header><p>a</p></header><footer><p>b</p></footer>", "<article><h1>h</h1><p>a</p></article><aside><p>b</p></aside>",
+    "<hgroup><h1>h</h1><p>a</p></hgroup>x", "<label><input></label><p>a</p>", "<pre>\n\nx</pre><p>a</p>", "<textarea>\nx</textarea><p>a</p>",
+]
+FAMILY_HEADS = ["<title>t</title>", "", "<meta charset=utf-8><title>t</title>", "<title>t</title><link rel=stylesheet href=s><style>p{}</style>", "<title>t</title><script>var x;</script>", "<base href=u><title>t</title>"]
+FAMILY_TAILS = ["", "<!--after body-->", "\n"]
+
+
+def family_documents():
+    out = []
+    for bi, b in enumerate(FAMILY_BODIES):
+        for b2 in ("", FAMILY_BODIES[(bi * 7 + 3) % len(FAMILY_BODIES)]):
+            head = FAMILY_HEADS[(bi + len(b2)) % len(FAMILY_HEADS)]
+            for tail in FAMILY_TAILS:
+                out.append("<!DOCTYPE html><html><head>%s</head><body>%s%s</body>%s</html>" % (head, b, b2, tail))
+    # the document-level rules: empty head / empty body / comments and white space around them
+    for head in ("", "<title>t</title>", "<!--h-->"):
+        for between in ("", "<!--c-->", " ", "\n"):
+            for body in ("", "x", "<!--b-->", " x", "<p>a</p>", "<script>s</script>", "<meta itemprop=i content=c>"):
+                for tail in ("", "<!--t-->"):
+                    for htmlattr in ("", " lang=en"):
+                        out.append("<!DOCTYPE html><html%s><head>%s</head>%s<body>%s</body>%s</html>%s" % (htmlattr, head, between, body, tail, tail))
+    return out
 
 
 def run_optional_tags_docs(acc, n, seed):
